@@ -33,6 +33,7 @@ def environments(tier, seed):
     envs.append(("store=local", dict(base, store="local")))
     envs.append(("store=local_cache2+debug_off", dict(base, store="local_cache2", debug=False)))
     envs.append(("export+debug_on_per_call", dict(base, export=True, debug_call=True)))
+    envs.append(("builtin_named_modules_on_sys_path", dict(base, builtin_named_modules=True)))
     if tier != "quick":
         envs.append(("all_different", dict(base, hashseed=s2 + 1, cwd="/", pkgroot="DEEP", store="local_cache2", debug=False, export=True)))
         envs.append(("store=local_cache100+hashseed=2", dict(base, store="local_cache100", hashseed=2)))
@@ -212,7 +213,7 @@ def run(tier, seed):
     res = Result(P, "model_checking")
     # (A) environments, as parallel real interpreters
     envs = environments(tier, seed)
-    nsh = 2 if len(envs) <= 8 else 1
+    nsh = 2 if len(envs) <= 9 else 1
     parts = pool.pmap(_tables_job, [(n, dict(j, shard=[i, nsh])) for n, j in envs for i in range(nsh)], chunk=1)
     tabs = {}
     for n, t in parts:
